@@ -9,4 +9,5 @@ import (
 	_ "verif/props/c06"
 	_ "verif/props/c08"
 	_ "verif/props/c09"
+	_ "verif/props/c12"
 )
